@@ -557,7 +557,12 @@ pub fn run(
                 } else {
                     "panic".into()
                 };
-                g.out.hook_findings.push(("worker panicked".into(), msg));
+                let at = crate::report::last_panic_location();
+                if crate::report::panic_is_in_harness(&at) {
+                    g.out.hook_findings.push(("harness panicked".into(), format!("{msg} (at {at})")));
+                } else {
+                    g.out.hook_findings.push(("worker panicked".into(), format!("{msg} (at {at})")));
+                }
             }
             // anything this worker still "holds" in our table is gone with its stack
             let ids: Vec<usize> = g.held.keys().copied().collect();
